@@ -108,7 +108,11 @@ def checkC03 (c : Ctx) : List String :=
     || c.obs.files.any (fun f => !underRoots c f.1 && (c.beforeOf f.1).isNone)
     || c.before.dirs.any (fun d => !underRoots c d && !c.obs.dirs.contains d)
     || c.obs.dirs.any (fun d => !underRoots c d && !c.roots.contains d && !c.before.isDir d)
-  (if outsideOp then ["c03-outside-op"] else []) ++ (if changed then ["c03-outside-changed"] else [])
+  -- a `.`/`..`/empty component or a separator inside a component lets the OS resolve the path somewhere else
+  let dots := c.obs.ops.any (fun o => (o.kind.mutating || o.kind == .openrw) &&
+    (o.path.drop c.exportDir.length).any (fun comp => comp == [46] || comp == [46, 46] || comp.isEmpty || comp.contains 47))
+  (if outsideOp then ["c03-outside-op"] else []) ++ (if changed then ["c03-outside-changed"] else []) ++
+  (if dots then ["c03-unresolved-component"] else [])
 
 /-! C04: verified export data is neither lost nor rewritten -/
 def rangesOverlap (a alen b blen : Nat) : Bool := a < b + blen && b < a + alen
@@ -192,11 +196,16 @@ def checkC14 (c : Ctx) : List String :=
 
 /-! C13: an injected I/O failure inside piece evaluation leaves the run returning normally with every piece accounted for -/
 def checkC13 (c : Ctx) (setupOps : Nat) : List String :=
-  if c.req.faults.isEmpty || c.req.faults.any (· < setupOps) then [] else
+  if c.req.faults.any (· < setupOps) then [] else
+  if c.req.faults.isEmpty then
+    (if (c.req.outcomes.zip c.req.pieceFailedOp).any (fun (oc, failed) => failed && oc != "fault" && oc != "inflight") then ["c13-failure-not-counted"] else [])
+  else
   let finalC := c.obs.counters.getLast?.getD ⟨0, 0, 0⟩
   (if c.obs.result != "ok" then ["c13-run-failed"] else []) ++
   (if c.obs.result == "ok" && finalC.success + finalC.failed + finalC.fault != c.work.length then ["c13-piece-lost"] else []) ++
-  (if finalC.fault > c.req.faults.length then ["c13-spread"] else [])
+  (if finalC.fault > c.req.faults.length then ["c13-spread"] else []) ++
+  -- a piece during whose evaluation a file operation failed must be counted as faulted (C13_found_all_ok)
+  (if (c.req.outcomes.zip c.req.pieceFailedOp).any (fun (oc, failed) => failed && oc != "fault") then ["c13-failure-not-counted"] else [])
 
 /-! C11: the tree at an emulated crash -/
 
